@@ -16,8 +16,11 @@
 (* Switches (constants):                                                                          *)
 (*   AtomicRR = FALSE  splits the fetch-and-add in a read and a write (a negative control: TLC    *)
 (*                     must then find the unfair schedule);                                      *)
-(*   FixedWR  = FALSE  is the pinned tree: rand.Intn(0) panics when the total weight is 0;        *)
-(*              TRUE   is the repaired code (uniform choice when the total weight is 0).          *)
+(*   FixedWR  = TRUE   is the code: uniform choice when the total weight is 0 (repaired by the     *)
+(*                     fix "weightedRandom load balancer chooses uniformly when no server has a    *)
+(*                     weight"; this check found the defect);                                      *)
+(*              FALSE  is the code before that repair, rand.Intn(0) panics when the total weight   *)
+(*                     is 0 - kept as a negative control: TLC must find the panic.                 *)
 EXTENDS LoadBalance
 
 CONSTANTS AtomicRR, FixedWR, HashRange
